@@ -199,13 +199,13 @@ func (h *Hook) OnDisconnect(cl *mqtt.Client, _ error, expire bool) {
 		return
 	}
 
+	if errors.Is(cl.StopCause(), packets.ErrSessionTakenOver) {
+		return // the stored record now belongs to the connection that took the session over
+	}
+
 	h.updateClient(cl)
 
 	if !expire {
-		return
-	}
-
-	if errors.Is(cl.StopCause(), packets.ErrSessionTakenOver) {
 		return
 	}
 
